@@ -563,6 +563,8 @@ def r11_socket(ctx):
     quietly at end of stream and the port reports closed (shared with C18 R18.1)."""
     from . import c18
     ctx.borrow(c18.r18_1, 'R11.7')
+    # "returns as soon as a message is deliverable": complete messages on a connection that stays open (shared with C18 R18.6)
+    ctx.borrow(c18.r18_live, 'R11.7')
 
 
 def r11_broken_pipe(ctx):
@@ -613,6 +615,47 @@ def r11_broken_pipe(ctx):
         ctx.functions.add(q)
 
 
+def r11_multi_oneshot(ctx, rule='R11.9'):
+    """A MultiPort may be built from any iterable of ports (a generator expression, map(open_input, names)): it must keep its
+    ports beyond the first call.  Two polls with a message arriving in between, and two sends, on a MultiPort made from a
+    one-shot iterator of two echo ports."""
+    mp = ctx.p.cls(P, 'MultiPort')
+    o, init = ctx.p.lookup_method(mp, '__init__')
+    w = ctx.where(init) if init is not None else f'{mp.module.relpath}:{mp.node.lineno} MultiPort'
+    cons = f'{mp.qname}::ports-from-iterator'
+    for kind in ('iterator', 'tuple'):
+        ai = pm.make_interp(ctx)
+        pm.device_double(ai, ctx)
+
+        def thunk(kind=kind):
+            e1 = pm.new_port(ai, ctx, 'EchoPort', [], {})
+            e2 = pm.new_port(ai, ctx, 'EchoPort', [], {})
+            multi = pm.new_port(ai, ctx, 'MultiPort', [AList([e1, e2], kind)], {})
+            first = pm.call(ai, ctx, multi, 'poll')
+            pm.call(ai, ctx, e2, 'send', [pm.note(ctx, 9)])
+            second = pm.call(ai, ctx, multi, 'poll')
+            pm.call(ai, ctx, multi, 'send', [pm.note(ctx, 1)])
+            pm.call(ai, ctx, multi, 'send', [pm.note(ctx, 2)])
+            got1 = [m.attrs.get('note') for m in e1.attrs['_messages'].items]
+            got2 = [m.attrs.get('note') for m in e2.attrs['_messages'].items]
+            return first, second, got1, got2
+        outs = ai.explore(thunk)
+        oc = one(ctx, rule, f'MultiPort({kind} of two ports): poll, poll, send, send', w, outs, cons)
+        if oc is None:
+            continue
+        if oc.kind != 'return':
+            ctx.fail(rule, f'MultiPort({kind} of two ports): poll, poll, send, send', w, f'{oc}', construct=cons)
+            continue
+        first, second, got1, got2 = oc.value
+        ok = first is None and isinstance(second, AObj) and second.attrs.get('note') == 9 and got1 == [1, 2] and got2 == [1, 2]
+        ctx.require(ok, rule, f'MultiPort({kind} of two ports): poll, poll, send, send', w,
+                    f'first poll {first!r}, second poll (after a message arrived in the second port) {second!r}; the two sends reached the children as '
+                    f'{got1} and {got2} - expected None, the message, [1, 2] and [1, 2] (a one-shot iterable of ports is used up by the first call)',
+                    construct=cons)
+        for q in ai.inlined:
+            ctx.functions.add(q)
+
+
 def r11_reset_via_send(ctx):
     """R11.8: reset(), panic() and the autoreset of close() hand their messages to send() - the method a port type may override
     (the RtMidi and amidi outputs override send(), not the _send() hook).  send() is replaced by a recording double here: a
@@ -658,4 +701,4 @@ def r11_reset_via_send(ctx):
     ctx.floor('R11.8', n, 3)
 
 
-RULES = [('R11.8', r11_reset_via_send), ('R11-broken-pipe', r11_broken_pipe), ('R11-socket', r11_socket), ('R11-server', r11_server), ('R11-close', r11_close), ('R11-send', r11_send), ('R11-receive', r11_receive), ('R11-multi', r11_multi)]
+RULES = [('R11.9', r11_multi_oneshot), ('R11.8', r11_reset_via_send), ('R11-broken-pipe', r11_broken_pipe), ('R11-socket', r11_socket), ('R11-server', r11_server), ('R11-close', r11_close), ('R11-send', r11_send), ('R11-receive', r11_receive), ('R11-multi', r11_multi)]
